@@ -134,10 +134,11 @@ def lastMax (f : Style → Nat) : List Style → Option Style
     | none => some s
     | some m => if f s > f m then some s else some m
 
-/-- stable insertion into a list ordered by count descending (`sort_by_key(Reverse(count))`) -/
+/-- stable insertion into a list ordered by count descending (`sort_by_key(Reverse(count))`): `sortDesc` inserts the
+    elements from the right, so an element that stood EARLIER goes in front of the elements with the same count -/
 def insertDesc (f : Style → Nat) (s : Style) : List Style → List Style
   | [] => [s]
-  | x :: xs => if f x < f s then s :: x :: xs else x :: insertDesc f s xs
+  | x :: xs => if f x ≤ f s then s :: x :: xs else x :: insertDesc f s xs
 
 def sortDesc (f : Style → Nat) (l : List Style) : List Style := l.foldr (insertDesc f) []
 
